@@ -8,7 +8,7 @@
     values), every combination of options, every grace period and interval, every fault plan and
     cancellation point, every clock. [file s k] is the value of the terminal key k.
     [jt o clk s0 k] = deleting k is justified at one of the readings: exists i, justified o (clk i) s0 k. *)
-From CM Require Import Lib.Str Lib.CleanSyntax Gen.Consts Clean.Model Clean.Proofs Clean.Prog Clean.Check Clean.SpecProofs Clean.Concurrent Clean.Interfere.
+From CM Require Import Lib.Str Lib.CleanSyntax Gen.Consts Clean.Model Clean.Proofs Clean.Prog Clean.Check Clean.SpecProofs Clean.Concurrent Clean.Interfere Clean.Effective.
 From Coq Require Import String Ascii.
 Open Scope Z_scope.
 
@@ -238,19 +238,31 @@ Print Assumptions C18_no_interference_is_model.
 (** ** the same, node by node (covers the directory nodes of the FileStorage flavour): a key
     keeps its node; or is gone and justified; or was a directory node certificates/<issuer>/<site>
     (certificates being cleaned) below which nothing is left; or is last_clean.json, written by a
-    successful Store call and not onto a directory *)
+    Store call of this run (which may have reported an error after taking effect) and not onto a directory *)
 Theorem C18_clean_post_nodes : forall e o clk s0 k,
   let s' := snd (clean e o clk s0) in
   lookup (sto s') k = lookup s0 k \/
   (lookup (sto s') k = None /\ exists i, justified o (clk i) s0 k = true) \/
   (lookup (sto s') k = None /\ lookup s0 k = Some Dir /\ site_folderb k = true /\ do_certs o = true /\
    forall k', under k k' = true -> lookup (sto s') k' = None) \/
-  (k = spec_last_clean /\ (exists i, lookup (sto s') k = Some (written (clk i) o)) /\ stored_ok (lg s') = true /\
+  (k = spec_last_clean /\ (exists i, lookup (sto s') k = Some (written (clk i) o)) /\ stored_any (lg s') = true /\
    lookup s0 k <> Some Dir).
 Proof.
   intros e o clk s0 k. destruct (clean_post_nodes e o clk s0 k) as [[E|N J|N D Sf Ho G]|i E W St Nd]; eauto 10.
 Qed.
 Print Assumptions C18_clean_post_nodes.
+
+(** ** not vacuous (effectiveness; not part of the property, which says "only"): a staple -- a terminal
+    key directly in ocsp/ -- that is unparseable or past NextUpdate at every reading of the clock is
+    gone, with everything below it, after a cleaning with staples on, no interval check, no storage
+    fault and no cancellation (ocsp itself not being a file) *)
+Theorem C18_stale_staples_removed : forall e o clk s0 a v c,
+  no_faults e -> do_ocsp o = true -> interval o <= 0 ->
+  (forall v' c', lookup s0 spec_ocsp <> Some (File v' c')) ->
+  child spec_ocsp a -> file s0 a = Some (v, c) -> (forall i, spec_stale (clk i) c = true) ->
+  forall k, covers a k = true -> lookup (sto (snd (clean e o clk s0))) k = None.
+Proof. exact stale_staples_removed. Qed.
+Print Assumptions C18_stale_staples_removed.
 
 (** ** the tie to the source text (translator, every run): the literals and comparison operators
     ([consts_ok]) and the control-flow shape ([consts_shape_ok]) that harness/cmd/consts/c18.go reads
@@ -312,7 +324,7 @@ Definition ex_store : store :=
     (s2k "acme/ca/users/u/u.key", File 13 plain);
     (s2k "locks/issue_cert_x.lock", File 14 plain);
     (s2k "last_clean.json", File 15 (Cls None None (Some (T - 2 * day, s2k "other")))) ].
-Definition ex_env : env := Env [] None true.
+Definition ex_env : env := Env [] [] None true.
 Definition ex_opts : opts := Opts (1 * day) true true (30 * day) (s2k "me").
 
 (** what a cleaning does to it: the long-expired certificate's three assets and the two bad
@@ -488,6 +500,19 @@ Example ex_clock_is_read_per_judgement :
   file (sto (snd (clean ex_env ex_opts1 (ticking T) ex_tick_store))) (s2k "ocsp/a-edge") = None /\
   justified ex_opts1 (ticking T 3) ex_tick_store (s2k "ocsp/a-edge") = true /\
   justified ex_opts1 (ticking T 1) ex_tick_store (s2k "ocsp/a-edge") = false.
+Proof. vm_compute. repeat split; reflexivity. Qed.
+
+(** a call that takes effect and then reports an error (a time-out after the back-end did the work):
+    the Delete of the emptied site folder (call 10) removes it and deleteExpiredCerts returns all the
+    same; the Store of the record (call 11) writes it and CleanStorage reports the error -- the
+    theorems above cover these runs (the only effects are still justified deletions and the record) *)
+Example ex_effect_then_error :
+  let e1 := Env [] [10%nat] None true in
+  let e2 := Env [] [11%nat] None true in
+  lookup (sto (snd (clean e1 ex_opts0 (at_ T) ex_fs_store))) (s2k "certificates/iss/dead.example") = None /\
+  fst (clean e1 ex_opts0 (at_ T) ex_fs_store) = RNil /\
+  fst (clean e2 ex_opts0 (at_ T) ex_fs_store) = RErrStore /\
+  lookup (sto (snd (clean e2 ex_opts0 (at_ T) ex_fs_store))) spec_last_clean = Some (written T ex_opts0).
 Proof. vm_compute. repeat split; reflexivity. Qed.
 
 (** ** Limits, stated: a NEGATIVE grace period makes the comparison
